@@ -268,6 +268,9 @@ def handleUtf (toks : List String) : Option String :=
   | ["nw", inp] => do
     let inp ← parseWhex inp
     some (nwLine inp)
+  | ["nwenv", inp] => do
+    let inp ← parseWhex inp
+    some (nwLine inp)
   | ["nws", lo, n] => do
     let lo ← lo.toNat?; let n ← n.toNat?
     if n = 0 ∨ lo + n > 2 ^ 32 then none else some (nwsDigest lo n)
